@@ -39,6 +39,7 @@ static void pred_c04(const Case &c) {
   M X = rd.mat(n, p), Y = rd.mat(n, ny), N = rd.mat(nnew, p);
   double cc = rd.d(), dd = rd.d();
   Prep Px = ref_preprocess(X, xopt), Py = ref_preprocess(Y, yopt);
+  V dEx = prep_col_bound(X, Px, xopt);
   V sv = singular_values(Px.X);
   int rank = numerical_rank(sv, 1e-9L);
   VF_CHECK(rank >= 1, "generator: rank 0");
@@ -101,7 +102,12 @@ static void pred_c04(const Case &c) {
       ld ka = sv[0] / sv[a - 1];
       for (int i = 0; i < n + nnew; i++) {
         ld s = 0, sa = 0;
-        for (int j = 0; j < p; j++) { ld xp = xs[j] == 0 ? 0 : (Z(i, j) - xm[j]) / xs[j]; ld t = xp * betas->data[j]; s += t; sa += fabsl(t); }
+        for (int j = 0; j < p; j++) {
+          ld xp = xs[j] == 0 ? 0 : (Z(i, j) - xm[j]) / xs[j]; ld t = xp * betas->data[j]; s += t;
+          // the centred value itself carries the rounding of the subtraction x - mean (absolute, not relative to its own size)
+          ld dxp = xs[j] == 0 ? 0 : (dEx[j] + 8 * EPS * (fabsl(Z(i, j)) + fabsl(xm[j])) / fabsl(xs[j]));
+          sa += fabsl(t) + dxp * fabsl((ld)betas->data[j]) / EPS / (1e3L * (n + p));
+        }
         ld ref = s * yscale[0] + ymean[0];
         ld tol = 1e3L * (n + p) * EPS * kappa * ka * (sa * fabsl(yscale[0]) + fabsl((ld)ally->data[i][a - 1] - ymean[0])) + 64 * EPS * fabsl(ymean[0]) + 1e-300L;
         if (!(std::isfinite(betas->data[0]) && fabsl(ally->data[i][a - 1] - ref) <= tol))
